@@ -183,8 +183,11 @@ impl ArgMatcher {
                     );
                     *local_counter += 1;
 
-                    let pat_bind_ident =
-                        syn::Ident::new(&format!("m{index}"), pat_macro.mac.path.span());
+                    // hygienic as well: a guard that mentions a user variable called `m0` must not see this binder
+                    let pat_bind_ident = syn::Ident::new(
+                        &format!("m{index}"),
+                        span.resolved_at(proc_macro2::Span::mixed_site()),
+                    );
 
                     Self::Compare(CompareMatcher {
                         span,
@@ -383,7 +386,8 @@ fn analyze_args(patterns: &[ArgPattern]) -> Vec<Arg> {
 
     for i in 0..arg_count {
         args.push(Arg {
-            arg_ident: quote::format_ident!("a{}", i),
+            // hygienic: an eq!/ne! operand or guard that mentions a user variable called `a0` must not see this parameter
+            arg_ident: syn::Ident::new(&format!("a{i}"), proc_macro2::Span::mixed_site()),
             kind: guess_arg_kind(i, patterns),
         });
     }
